@@ -57,6 +57,8 @@ SPEC = {
         "Get/setShared/getCacheForKey/getCategory; hybrid DefaultConfig prefix tables; client.Service ConnectClient / EnsureClientOnline / "
         "DisconnectClientIfMatch, ClientStateRepository GetState/SetState, ServerAuthHandler.updateClientRuntimeState, TTLClientState, "
         "KeyPrefixRuntimeClientState (Gen/ConnState.lean)",
+        "the harness' store handles (schedule gate, parking handle) offer storage.CASStore exactly when the wrapped store does "
+        "(memory, redis, hybrid), so capability type-assertions in the code under test take the production path",
         "differential harness /verif/harness/c08 (fake transport, auth handler that accepts token \"ok\", recording storage under "
         "the CrossNodePool, value-shape doubles); compiled Lean driver as model and as holds-oracle",
         "the shared store behaves as the sequential map with expiry of Spec/TTLStore (C13 for memory; observed, not proved, for "
